@@ -6,7 +6,7 @@ From Coq Require Import ZifyBool.
 Definition WFL (L : list (Z * lendpos)) (nl : Z) : Prop :=
   forall i l, zget L i = Some l -> 1 <= i <= nl.
 Definition WFB (L : list (Z * lendpos)) (B : list (Z * borrowpos)) (nb : Z) : Prop :=
-  forall j b, zget B j = Some b -> 1 <= j <= nb /\ exists l, zget L (b_lend b) = Some l /\ In j (l_bids l).
+  forall j b, zget B j = Some b -> 1 <= j <= nb /\ (b_liq b = false -> exists l, zget L (b_lend b) = Some l /\ In j (l_bids l)).
 
 (* what Inv08_lend / Inv08_borrow say about one published stats record *)
 Definition stat_ok (cfg : config) L B (nl nb : Z) (k : Z * Z) (s : stats) : Prop :=
@@ -59,7 +59,7 @@ Section Transitions.
     assert (Hi := Hwl i l Hg).
     split; [exact Hnl|]. split; [exact Hnb|]. split; [|split].
     - intros i' x. rewrite zget_zset. destruct (Z.eqb_spec i i'); [intros _; lia|apply Hwl].
-    - intros j b Hj. destruct (Hwb j b Hj) as (Hr & l0 & Hl0 & Hin). split; [exact Hr|].
+    - intros j b Hj. destruct (Hwb j b Hj) as (Hr & Hex). split; [exact Hr|]. intros Hq0. destruct (Hex Hq0) as (l0 & Hl0 & Hin).
       rewrite zget_zset. destruct (Z.eqb_spec i (b_lend b)) as [Heq|].
       + exists l'. split; [reflexivity|]. rewrite Hb. rewrite <- Heq, Hg in Hl0. injection Hl0 as ->. exact Hin.
       + exists l0. split; assumption.
@@ -80,7 +80,7 @@ Section Transitions.
     assert (Hi := Hwl i l Hg).
     split; [exact Hnl|]. split; [exact Hnb|]. split; [|split].
     - intros i' x. rewrite zget_zset. destruct (Z.eqb_spec i i'); [intros _; lia|apply Hwl].
-    - intros j b Hj. destruct (Hwb j b Hj) as (Hr & l0 & Hl0 & Hin). split; [exact Hr|].
+    - intros j b Hj. destruct (Hwb j b Hj) as (Hr & Hex). split; [exact Hr|]. intros Hq0. destruct (Hex Hq0) as (l0 & Hl0 & Hin).
       rewrite zget_zset. destruct (Z.eqb_spec i (b_lend b)) as [Heq|].
       + exists l'. split; [reflexivity|]. rewrite Hb. rewrite <- Heq, Hg in Hl0. injection Hl0 as ->. exact Hin.
       + exists l0. split; assumption.
@@ -106,7 +106,8 @@ Section Transitions.
   Proof.
     intros Hi. destruct HI as (Hnl & Hnb & Hwl & Hwb & HSI). unfold pledged. apply sumz_zero. intros j _.
     unfold bterm. destruct (zget B j) as [b|] eqn:Hb; [|reflexivity].
-    destruct (Hwb j b Hb) as (_ & l0 & Hl0 & _). apply Hwl in Hl0.
+    destruct (b_liq b) eqn:Hq; [rewrite andb_false_r; reflexivity|].
+    destruct (Hwb j b Hb) as (_ & Hex). destruct (Hex Hq) as (l0 & Hl0 & _). apply Hwl in Hl0.
     destruct (Z.eqb_spec (b_lend b) i); [lia|reflexivity].
   Qed.
 
@@ -125,7 +126,7 @@ Section Transitions.
     split; [lia|]. split; [exact Hnb|]. split; [|split].
     - intros i' x. rewrite zget_zset. destruct (Z.eqb_spec (nl + 1) i'); [intros _; lia|].
       intros H. apply Hwl in H. lia.
-    - intros j b Hj. destruct (Hwb j b Hj) as (Hr & l0 & Hl0 & Hin). split; [exact Hr|].
+    - intros j b Hj. destruct (Hwb j b Hj) as (Hr & Hex). split; [exact Hr|]. intros Hq0. destruct (Hex Hq0) as (l0 & Hl0 & Hin).
       exists l0. split; [|exact Hin]. rewrite zget_zset_other; [exact Hl0|]. apply Hwl in Hl0. lia.
     - intros k x Hget. unfold stat_ok. rewrite (to_nat_succ nl Hnl).
       rewrite <- (of_to_succ nl Hnl). rewrite <- (of_to_succ nl Hnl) in Hfresh, Hnone, E3.
@@ -137,26 +138,24 @@ Section Transitions.
 
   (* --- a lend position without open borrows deleted --- *)
   Lemma T_dellend i l s s' S' :
-    zget L i = Some l -> l_bids l = [] ->
+    zget L i = Some l -> (forall j b, zget B j = Some b -> b_liq b = false -> b_lend b <> i) ->
     pget S (lkey l) = Some s ->
     s_bor s' = s_bor s -> s_sbor s' = s_sbor s -> s_bids s' = s_bids s ->
     s_lend s' = s_lend s - l_avail l -> s_lids s' = remove_sorted i (s_lids s) ->
     (forall k, pget S' k = if peqb (lkey l) k then Some s' else pget S k) ->
     InvB cfg (zdel L i) B S' nl nb.
   Proof.
-    intros Hg Hb Hs E1 E2 E4 El E3 HS. destruct HI as (Hnl & Hnb & Hwl & Hwb & HSI).
+    intros Hg Hnob Hs E1 E2 E4 El E3 HS. destruct HI as (Hnl & Hnb & Hwl & Hwb & HSI).
     assert (Hi := Hwl i l Hg).
-    assert (Hnob : forall j b, zget B j = Some b -> b_lend b <> i).
-    { intros j b Hj Heq. destruct (Hwb j b Hj) as (_ & l0 & Hl0 & Hin). rewrite Heq, Hg in Hl0.
-      injection Hl0 as <-. rewrite Hb in Hin. exact Hin. }
     assert (Hp : pledged B (Z.to_nat nb) i = 0).
     { unfold pledged. apply sumz_zero. intros j _. unfold bterm. destruct (zget B j) as [b|] eqn:Hj; [|reflexivity].
-      destruct (Z.eqb_spec (b_lend b) i) as [Heq|]; [exfalso; exact (Hnob j b Hj Heq)|reflexivity]. }
+      destruct (b_liq b) eqn:Hq; [rewrite andb_false_r; reflexivity|].
+      destruct (Z.eqb_spec (b_lend b) i) as [Heq|]; [exfalso; exact (Hnob j b Hj Hq Heq)|reflexivity]. }
     split; [exact Hnl|]. split; [exact Hnb|]. split; [|split].
     - intros i' x. rewrite zget_zdel. destruct (i =? i'); [discriminate|apply Hwl].
-    - intros j b Hj. destruct (Hwb j b Hj) as (Hr & l0 & Hl0 & Hin). split; [exact Hr|].
+    - intros j b Hj. destruct (Hwb j b Hj) as (Hr & Hex). split; [exact Hr|]. intros Hq0. destruct (Hex Hq0) as (l0 & Hl0 & Hin).
       exists l0. split; [|exact Hin]. rewrite zget_zdel.
-      destruct (Z.eqb_spec i (b_lend b)) as [Heq|]; [exfalso; exact (Hnob j b Hj (eq_sym Heq))|exact Hl0].
+      destruct (Z.eqb_spec i (b_lend b)) as [Heq|]; [exfalso; exact (Hnob j b Hj Hq0 (eq_sym Heq))|exact Hl0].
     - intros k x Hget. unfold stat_ok.
       rewrite (lend_sum_del L B _ _ k i l Hg Hp) by lia. rewrite (lids_del L _ k i l Hg).
       split_key HS Hget (lkey l) k.
@@ -174,10 +173,10 @@ Section Transitions.
     InvB cfg L (zset B j b') S nl nb.
   Proof.
     intros Hg El Ep Ei Eo Es Eq. destruct HI as (Hnl & Hnb & Hwl & Hwb & HSI).
-    destruct (Hwb j b Hg) as (Hj & l0 & Hl0 & Hin0).
+    destruct (Hwb j b Hg) as (Hj & Hex).
     split; [exact Hnl|]. split; [exact Hnb|]. split; [exact Hwl|]. split.
     - intros j' x. rewrite zget_zset. destruct (Z.eqb_spec j j') as [<-|]; [|apply Hwb].
-      intros H. injection H as <-. split; [exact Hj|]. exists l0. rewrite El. split; assumption.
+      intros H. injection H as <-. split; [exact Hj|]. rewrite Eq, El. exact Hex.
     - intros k x Hget. destruct (HSI _ _ Hget) as (A1 & A2 & A3 & A4 & A5). unfold stat_ok.
       rewrite (lend_sum_shift L B (zset B j b') (Z.to_nat nl) (Z.to_nat nb) (Z.to_nat nb) k (b_lend b) (bdelta b 0)).
       2:{ intros i. rewrite (pledged_upd B (Z.to_nat nb) j b b' i Hg El Eq) by lia. rewrite Ei, Z.sub_diag. reflexivity. }
@@ -198,13 +197,13 @@ Section Transitions.
     InvB cfg (zset L (b_lend b) l') (zset B j b') S nl nb.
   Proof.
     intros Hg Hq Hl Hk Hb Ha El Ep Ei Eo Es Eq. destruct HI as (Hnl & Hnb & Hwl & Hwb & HSI).
-    destruct (Hwb j b Hg) as (Hj & l0 & Hl0 & Hin0). rewrite Hl in Hl0. injection Hl0 as <-.
+    destruct (Hwb j b Hg) as (Hj & Hex). destruct (Hex Hq) as (l0 & Hl0 & Hin0). rewrite Hl in Hl0. injection Hl0 as <-.
     assert (Hi := Hwl _ l Hl).
     split; [exact Hnl|]. split; [exact Hnb|]. split; [|split].
     - intros i' y. rewrite zget_zset. destruct (Z.eqb_spec (b_lend b) i'); [intros _; lia|apply Hwl].
     - intros j' y. rewrite zget_zset. destruct (Z.eqb_spec j j') as [<-|].
-      + intros H. injection H as <-. split; [exact Hj|]. exists l'. rewrite El, zget_zset_same, Hb. split; [reflexivity|exact Hin0].
-      + intros Hj'. destruct (Hwb j' y Hj') as (Hr & l1 & Hl1 & Hin1). split; [exact Hr|].
+      + intros H. injection H as <-. split; [exact Hj|]. intros _. exists l'. rewrite El, zget_zset_same, Hb. split; [reflexivity|exact Hin0].
+      + intros Hj'. destruct (Hwb j' y Hj') as (Hr & Hex'). split; [exact Hr|]. intros Hq0. destruct (Hex' Hq0) as (l1 & Hl1 & Hin1).
         rewrite zget_zset. destruct (Z.eqb_spec (b_lend b) (b_lend y)) as [Heq|].
         * exists l'. split; [reflexivity|]. rewrite Hb. rewrite <- Heq, Hl in Hl1. injection Hl1 as ->. exact Hin1.
         * exists l1. split; assumption.
@@ -243,10 +242,10 @@ Section Transitions.
     InvB cfg L (zset B j b') S' nl nb.
   Proof.
     intros Hg Hq Hk Hs El Ep Ei Eo Es Eq (F1 & F2 & F3) F4 HS. destruct HI as (Hnl & Hnb & Hwl & Hwb & HSI).
-    destruct (Hwb j b Hg) as (Hj & l0 & Hl0 & Hin0).
+    destruct (Hwb j b Hg) as (Hj & Hex).
     split; [exact Hnl|]. split; [exact Hnb|]. split; [exact Hwl|]. split.
     - intros j' y. rewrite zget_zset. destruct (Z.eqb_spec j j') as [<-|]; [|apply Hwb].
-      intros H. injection H as <-. split; [exact Hj|]. exists l0. rewrite El. split; assumption.
+      intros H. injection H as <-. split; [exact Hj|]. rewrite Eq, El. exact Hex.
     - intros k y Hget. unfold stat_ok.
       rewrite (lend_sum_shift L B (zset B j b') (Z.to_nat nl) (Z.to_nat nb) (Z.to_nat nb) k (b_lend b) (bdelta b 0)).
       2:{ intros i. rewrite (pledged_upd B (Z.to_nat nb) j b b' i Hg El Eq) by lia. rewrite Ei, Z.sub_diag. reflexivity. }
@@ -279,9 +278,9 @@ Section Transitions.
     split; [exact Hnl|]. split; [lia|]. split; [|split].
     - intros i' y. rewrite zget_zset. destruct (Z.eqb_spec i0 i'); [intros _; lia|apply Hwl].
     - intros j' y. rewrite zget_zset. destruct (Z.eqb_spec (nb + 1) j') as [<-|].
-      + intros H. injection H as <-. split; [lia|]. exists l'. rewrite El, zget_zset_same, Hb. split; [reflexivity|].
+      + intros H. injection H as <-. split; [lia|]. intros _. exists l'. rewrite El, zget_zset_same, Hb. split; [reflexivity|].
         apply in_or_app. right. left. reflexivity.
-      + intros Hj'. destruct (Hwb j' y Hj') as (Hr & l1 & Hl1 & Hin1). split; [lia|].
+      + intros Hj'. destruct (Hwb j' y Hj') as (Hr & Hex'). split; [lia|]. intros Hq0. destruct (Hex' Hq0) as (l1 & Hl1 & Hin1).
         rewrite zget_zset. destruct (Z.eqb_spec i0 (b_lend y)) as [Heq|].
         * exists l'. split; [reflexivity|]. rewrite Hb. rewrite <- Heq, Hl in Hl1. injection Hl1 as ->.
           apply in_or_app. left. exact Hin1.
@@ -323,7 +322,7 @@ Section Transitions.
     split; [exact Hnl|]. split; [exact Hnb|]. split; [|split].
     - intros i' y. rewrite zget_zset. destruct (Z.eqb_spec (b_lend b) i'); [intros _; lia|apply Hwl].
     - intros j' y. rewrite zget_zdel. destruct (Z.eqb_spec j j') as [|Hne]; [discriminate|].
-      intros Hj'. destruct (Hwb j' y Hj') as (Hr & l1 & Hl1 & Hin1). split; [exact Hr|].
+      intros Hj'. destruct (Hwb j' y Hj') as (Hr & Hex'). split; [exact Hr|]. intros Hq0. destruct (Hex' Hq0) as (l1 & Hl1 & Hin1).
       rewrite zget_zset. destruct (Z.eqb_spec (b_lend b) (b_lend y)) as [Heq|].
       + exists l'. split; [reflexivity|]. rewrite Hb. rewrite <- Heq, Hl in Hl1. injection Hl1 as ->.
         apply In_remove_sorted_other; [exact Hin1|congruence].
